@@ -225,6 +225,7 @@ template <class TM, class SM> struct Harness {
       for (int builtin = 0; builtin < 2; ++builtin) {
         WS ws; auto r = run(three, builtin ? nullptr : &ws, eps, tol); ++c.st.comparisons;
         Eigen::VectorXd ga = analytic(three);
+        { const std::string rep = r.makeReport(); const bool says_pass = rep.find("PASSED") != std::string::npos, says_fail = rep.find("FAILED") != std::string::npos; if (says_pass != r.valid || says_fail == r.valid) { fail("selfcheck-report", "makeReport() text contradicts the valid flag: " + rep); return; } }
         if (!r.valid) { fail("selfcheck-correct-functors", fmt("reports failure (error norm %.3g, eps %g tol %g) for correct gradients, three-cost=%d", r.error_norm, eps, tol, three)); return; }
         if (r.analytical.size() != n || !bits_equal(r.analytical.data(), ga.data(), n)) { fail("selfcheck-analytical", "returned analytical gradient is not evaluate()'s gradient at x"); return; }
         Eigen::VectorXd num(n), dg; for (int i = 0; i < n; ++i) { Eigen::VectorXd y = x; WS w; y(i) = x(i) + eps; double cp = three ? opt.evaluate(y, dg, tc, wc, rc, &w) : opt.evaluate(y, dg, tc, rc, &w); y(i) = x(i) - eps; double cm = three ? opt.evaluate(y, dg, tc, wc, rc, &w) : opt.evaluate(y, dg, tc, rc, &w); num(i) = (cp - cm) / (2 * eps); }
@@ -265,6 +266,7 @@ template <class TM, class SM> struct Harness {
           if (pp.kind == 0) { tc.pert_comp = pp.a; tc.pert = bad; } else if (pp.kind == 1) { wc.pert_row = pp.a; wc.pert_col = pp.b; wc.pert = bad; } else { rc.pert_out = pp.a; rc.pert_comp = pp.b; rc.pert = bad; }
           WS wb; auto rb = run(three, &wb, eps, tol); ++c.st.comparisons; tc = tcs; wc = wcs; rc = rcs;
           if (rb.valid) { fail("selfcheck-misses-wrong-gradient", fmt("%s gradient component (%d,%d) is %s (the cost is finite and the component influences the gradient) but valid=true, error_norm=%.3g", pp.kind == 0 ? "time-cost" : pp.kind == 1 ? "waypoint-cost" : "running-cost", pp.a, pp.b, std::isnan(bad) ? "NaN" : "+Inf", rb.error_norm)); return; } }
+        { const std::string rep = r.makeReport(); if ((rep.find("PASSED") != std::string::npos) != r.valid || (rep.find("FAILED") != std::string::npos) == r.valid) { fail("selfcheck-report", "makeReport() text contradicts the valid flag: " + rep); return; } }
         if (e >= 10 * tol) { c.st.cls("C19: perturbed component influences the gradient -> must fail"); if (r.valid) { fail("selfcheck-misses-wrong-gradient", fmt("%s gradient component (%d,%d) wrong by %.3g (analytic gradient off by %.3g) but valid=true, error_norm=%.3g, eps %g tol %g", kn, pp.a, pp.b, delta, e, r.error_norm, eps, tol)); return; } }
         else if (e == 0.0) { c.st.cls("C19: perturbed component has no influence -> must still pass"); if (!r.valid) { fail("selfcheck-false-alarm", fmt("%s gradient component (%d,%d) does not influence the gradient, yet valid=false", kn, pp.a, pp.b)); return; } }
         else c.st.cls("C19: perturbation influence between 0 and 10 tol (verdict not asserted)");
